@@ -45,6 +45,7 @@ REQUIRED = [
     "C01_cell_methods_parse_write",
     "C01_cell_methods_old_code_counterexample",
     "C01_dan_bounds_counterexample",
+    "C01_vertical_datum_gm_old_code_counterexample",
 ]
 BUDGET = {"quick": 1600, "thorough": 24000}
 RULE = (
@@ -1476,7 +1477,9 @@ CHAIN = [
     ("cm_free_name_clash", GEN.cm_free_name_clash, "cell-method-over-a-name-that-is-also-a-netcdf-name-read-as-axis"),
     ("bounds_ncdim", GEN.bounds_ncdim_clash, "bounds-dimension-name-replaced-by-existing-dimension-of-same-size"),
     ("ft_none_terms", GEN.ft_none_terms, "formula-term-without-domain-ancillary-dropped"),
-    ("ft_datum", GEN.ft_datum_alone, "vertical-datum-without-matching-grid-mapping-adds-coordinate-reference"),
+    ("ft_datum", GEN.ft_datum_alone,
+     lambda d: "vertical-datum-grid-mapping-variable-read-as-field" if d.startswith("read returned")
+     else "vertical-datum-without-matching-grid-mapping-adds-coordinate-reference"),
     ("ft_datum_missing", GEN.ft_datum_missing, "grid-mapping-datum-copied-onto-formula-terms-reference"),
     ("ft_csn", GEN.ft_csn_missing, "computed-standard-name-copied-onto-coordinate"),
     ("ft_coords", GEN.ft_extra_coords,
@@ -1575,7 +1578,19 @@ def classify(case):
         except Exception:
             return None
         if nxt is None:
-            return sig(cur) if callable(sig) else sig
+            found = sig(cur) if callable(sig) else sig
+            if found:
+                return found
+            # the removal of this class made the failure go away, but the symptom is not one of this
+            # class (e.g. the removal took a coordinate reference out together with the real cause):
+            # put the class back and look at the remaining ones
+            fixes = fixes[:-1]
+            spec2 = dict(spec2, fix=fixes)
+            try:
+                cur_f = GEN.build(spec2)
+            except Exception:
+                return None
+            continue
         sg = names_sig(nxt, realise(spec2, opts2), None)
         if sg:
             return sg
